@@ -3,6 +3,8 @@ against the Lean small-step model, plus real multi-process runs vs single-proces
 import itertools
 import threading
 
+import warnings
+
 import numpy as np
 
 META = {
@@ -281,6 +283,38 @@ def suite_real_mp(ctx):
                 ctx.fail("Proj_MP.__call__", "multi-process projection differs from single-process", inp,
                          {"ndiff": int((x != x1).sum() + (y != y1).sum())}, size=n)
             ctx.case("real.proj_mp", (r, n, nprocs, kind, chunk), nontrivial=n > nprocs, sample={"input": inp})
+            # swaths as they come: 2-D, any memory layout, with runs of missing geolocation (NaN / inf) long enough to fill whole work items
+            if n >= 7:
+                rows_ = ctx.rng.choice([d_ for d_ in (1, 7, 11, 13, 77) if n % d_ == 0] or [1])
+                lo2, la2 = lons.copy(), lats.copy()
+                for _ in range(ctx.rng.randint(1, 3)):
+                    a_ = ctx.rng.randrange(0, n)
+                    b_ = min(n, a_ + ctx.rng.choice([1, 3, n // 3 + 1, n // 2 + 1]))
+                    bad = ctx.rng.choice([np.nan, np.inf, 1e30])
+                    lo2[a_:b_] = bad
+                    if ctx.rng.random() < 0.7:
+                        la2[a_:b_] = bad
+                if ctx.rng.random() < 0.3:
+                    lo2[: n - 2] = np.nan          # (nearly) everything missing
+                layout = ctx.rng.choice(["C", "F", "transposed-view", "strided"])
+                lo2, la2 = lo2.reshape(rows_, -1), la2.reshape(rows_, -1)
+                if layout == "F":
+                    lo2, la2 = np.asfortranarray(lo2), np.asfortranarray(la2)
+                elif layout == "transposed-view":
+                    lo2, la2 = np.ascontiguousarray(lo2.T).T, np.ascontiguousarray(la2.T).T
+                elif layout == "strided":
+                    lo2, la2 = np.repeat(lo2, 2, axis=1)[:, ::2], np.repeat(la2, 2, axis=1)[:, ::2]
+                inp2 = {**inp, "shape": list(lo2.shape), "layout": layout, "n_nonfinite": int((~np.isfinite(lo2) | ~np.isfinite(la2)).sum())}
+                with warnings.catch_warnings():
+                    warnings.simplefilter("ignore")
+                    x, y = Proj_MP(**proj_def)(lo2, la2, nprocs=nprocs, chunk=chunk, schedule=kind)
+                    x1, y1 = tr.transform(np.ascontiguousarray(lo2), np.ascontiguousarray(la2))
+                ctx.count(f"real.proj_mp.layout.{layout}")
+                ctx.case("real.proj_mp.2d", (r, n, nprocs, kind, chunk, layout, inp2["n_nonfinite"]), nontrivial=True, sample={"input": inp2})
+                if x.shape != lo2.shape or not (np.array_equal(x, x1, equal_nan=True) and np.array_equal(y, y1, equal_nan=True)):
+                    nd = int((~((x == x1) | (np.isnan(x) & np.isnan(x1)))).sum()) if x.shape == x1.shape else -1
+                    ctx.fail("Proj_MP.__call__", f"{layout} {lo2.shape} input with {inp2['n_nonfinite']} points without geolocation: multi-process projection differs from the "
+                             f"single-process one at {nd} points", inp2, {"ndiff": nd}, tags={"cause": "layout-or-missing"}, size=n)
             if n > 0:
                 k = ctx.rng.choice([1, 3])
                 data = np.array([[ctx.rng.uniform(-1, 1) for _ in range(3)] for _ in range(50)])
